@@ -22,7 +22,7 @@ ASSUMPTIONS = ["reference model transcribes W3C SCXML 1.0 Appendix D correctly (
 
 def budget(tier):
     if tier == "thorough":
-        return {"examples": 12000, "exh_states": 6, "min_nontrivial": 2000}
+        return {"examples": 3000, "exh_states": 6, "min_nontrivial": 2000}
     return {"examples": 350, "exh_states": 5, "min_nontrivial": 300}
 
 
